@@ -36,6 +36,7 @@ type report struct {
 	WriterMethods []string          `json:"writer_methods"`
 	ReaderMethods []string          `json:"reader_methods"`
 	PackageVars   map[string]string `json:"package_vars"`
+	Resets        []string          `json:"resets"`
 }
 
 func main() {
@@ -154,7 +155,37 @@ func main() {
 				rep.VarHooks += n
 				hooks += n
 			}
-			if hooks > 0 {
+			// (c) reset functions for package-level maps (registries, caches) declared in this file
+			var resetSrc []string
+			for _, d := range f.Decls {
+				gd, ok := d.(*ast.GenDecl)
+				if !ok || gd.Tok != token.VAR {
+					continue
+				}
+				for _, sp := range gd.Specs {
+					vs := sp.(*ast.ValueSpec)
+					for vi, n := range vs.Names {
+						if vi >= len(vs.Values) {
+							continue
+						}
+						call, ok := vs.Values[vi].(*ast.CallExpr)
+						if !ok {
+							continue
+						}
+						if fn, ok := call.Fun.(*ast.Ident); !ok || fn.Name != "make" || len(call.Args) == 0 {
+							continue
+						}
+						if _, ok := call.Args[0].(*ast.MapType); !ok {
+							continue
+						}
+						var eb bytes.Buffer
+						printer.Fprint(&eb, fset, vs.Values[vi])
+						resetSrc = append(resetSrc, n.Name+" = "+eb.String())
+						rep.Resets = append(rep.Resets, pkgName(pkgDir)+"."+n.Name)
+					}
+				}
+			}
+			if hooks > 0 || len(resetSrc) > 0 {
 				addImport(f, hookAlias, shimPath)
 				changed = true
 			}
@@ -164,6 +195,13 @@ func main() {
 			var buf bytes.Buffer
 			if err := printer.Fprint(&buf, fset, f); err != nil {
 				fail(err)
+			}
+			if len(resetSrc) > 0 {
+				buf.WriteString("\n\nfunc init() {\n\t" + hookAlias + ".RegisterReset(func() {\n")
+				for _, r := range resetSrc {
+					buf.WriteString("\t\t" + r + "\n")
+				}
+				buf.WriteString("\t})\n}\n")
 			}
 			rel := filepath.Join(pkgDir, names[i])
 			dst := filepath.Join(*out, strings.ReplaceAll(rel, "/", "__"))
